@@ -159,6 +159,9 @@ type c03Config struct {
 	// migration: the object declares a migration from DaemonSet "old" whose selector (app=agent) also matches the
 	// ExtendedDaemonSet's own pods (same template labels, the usual case); the old pods are owned by that DaemonSet
 	migration bool
+	// migrationLabelled: the old DaemonSet's pods also carry the ExtendedDaemonSet's name label (the DaemonSet's template had
+	// it already): each of them is returned by both pod lists of the sync
+	migrationLabelled bool
 	// cordoned: every node carries node.kubernetes.io/unschedulable:NoSchedule (a node-condition taint every daemon pod
 	// tolerates): the nodes stay targeted
 	cordoned bool
@@ -171,6 +174,7 @@ func c03Configs() []c03Config {
 			out = append(out, c03Config{mu: mu, mpsf: mf})
 			if mf == "0" && (mu == "1" || mu == "50%") {
 				out = append(out, c03Config{mu: mu, mpsf: mf, migration: true})
+				out = append(out, c03Config{mu: mu, mpsf: mf, migration: true, migrationLabelled: true})
 				out = append(out, c03Config{mu: mu, mpsf: mf, cordoned: true})
 			}
 			if strings.HasSuffix(mu, "%") && mf == "0" {
@@ -274,6 +278,9 @@ func c03TwinEval(t *testing.T, run *h.Run, prop string, seq []int, cfg c03Config
 					if c == cOldDSAvail {
 						tr := true
 						p.Labels = map[string]string{"app": "agent"}
+						if cfg.migrationLabelled {
+							p.Labels[v1.ExtendedDaemonSetNameLabelKey] = "foo"
+						}
 						p.OwnerReferences = []metav1.OwnerReference{{APIVersion: "apps/v1", Kind: "DaemonSet", Name: "old", Controller: &tr}}
 					}
 				}
@@ -317,7 +324,7 @@ func c03TwinEval(t *testing.T, run *h.Run, prop string, seq []int, cfg c03Config
 		mf := resolveStr(cfg.mpsf, len(seq))
 		if sig, msg := judge(deleted, mu, mf); sig != "" {
 			run.Violate(h.Violation{Signature: sig, Monitor: prop + "/twin", Message: msg, Rank: int64(len(seq)),
-				Replay: map[string]interface{}{"level": "reconcile", "classes": c03Names(seq), "maxUnavailable": cfg.mu, "maxPodSchedulerFailure": cfg.mpsf, "stored_status_desired_offset": cfg.stale, "migration_overlapping_selector": cfg.migration, "nodes_cordoned": cfg.cordoned, "deleted": deleted}})
+				Replay: map[string]interface{}{"level": "reconcile", "classes": c03Names(seq), "maxUnavailable": cfg.mu, "maxPodSchedulerFailure": cfg.mpsf, "stored_status_desired_offset": cfg.stale, "migration_overlapping_selector": cfg.migration, "old_pods_carry_name_label": cfg.migrationLabelled, "nodes_cordoned": cfg.cordoned, "deleted": deleted}})
 		}
 		if nd > 0 {
 			run.Nontrivial(fmt.Sprintf("twin:n=%d del=%d mu=%s", len(seq), nd, cfg.mu))
